@@ -171,13 +171,14 @@ type Ctx struct {
 }
 
 type Case struct {
-	ID    int    `json:"id"`
-	Class string `json:"class"`
-	Q     string `json:"q"`    // hex of the query text
-	Mode  string `json:"mode"` // plan | tags | values
-	Key   string `json:"key"`  // values mode
-	Ctx   Ctx    `json:"ctx"`
-	Calls int    `json:"calls"` // how many times Process is called on the same planner (ComplexRequestProcessor re-uses it)
+	ID    int             `json:"id"`
+	Class string          `json:"class"`
+	Q     string          `json:"q"`    // hex of the query text
+	Mode  string          `json:"mode"` // plan | tags | values
+	Key   string          `json:"key"`  // values mode
+	Ctx   Ctx             `json:"ctx"`
+	Calls int             `json:"calls"`         // how many times Process is called on the same planner (ComplexRequestProcessor re-uses it)
+	Dbs   json.RawMessage `json:"dbs,omitempty"` // corpus cases: attribute-index contents for the semantic oracle (passed through)
 	// observations
 	ParseErr string        `json:"parse_err,omitempty"`
 	Ast      interface{}   `json:"ast,omitempty"`
@@ -366,6 +367,12 @@ func selector(r *rand.Rand, weird bool, class *string) string {
 			if attr == "name" {
 				attr = ".a"
 			}
+		}
+		if weird && r.Intn(5) == 0 {
+			attr = "" // sum() / avg() ... without an attribute: the grammar allows it
+		}
+		if fn == "count" && r.Intn(4) == 0 {
+			attr = label(r) // count(.a): the attribute is carried along but not used
 		}
 		if weird && r.Intn(4) == 0 {
 			if attr == "duration" {
